@@ -11,7 +11,7 @@ CHECKS = {
         technique='exhaustive enumeration of the complete constraint-pair x operation x name-class product, set reference model replayed against the implementation',
         text='Model checking by complete enumeration: every ordered pair of namespace constraints of a closed alphabet '
              '(##any, ##other, all subsets of {##local, ##targetNamespace, N1, N2}; in 1.1 also notNamespace subsets x notQName subsets) '
-             'x {admits, union, intersection, restriction, overlap} x every class of a name universe that no constraint of the alphabet '
+             'x {admits, union (also with the base or the derived wildcard taken from a referenced attribute group), intersection, restriction, overlap; after every composition the operand wildcards and every other user of a shared group are re-checked for aliasing} x every class of a name universe that no constraint of the alphabet '
              'can split, for element and attribute wildcards and both processors. The reference model is Python sets; each case is '
              'replayed through schema construction and is_valid(). The space is finite and is covered completely in both tiers.',
         design_ref='DESIGN.md section 2, C16',
@@ -33,8 +33,9 @@ CHECKS = {
     'C12': dict(
         technique='exhaustive enumeration of the allow x source-kind x mechanism x spelling product; realpath-based reference; audit-hook observation of every open/urllib.Request',
         text='Model checking by complete enumeration of a finite configuration product: 5 allow modes x 7 main-source kinds x 12 reference '
-             'mechanisms (include, import with 3 loaders, redefine, override, include->import chain, location hints on element/root, locations=, '
-             'uri_mapper dict/callable) x 14 location spellings (+16 more: all in thorough, a seed-selected quarter in quick) x both processors. '
+             'mechanisms (include, import with 3 loaders, redefine, override, include->import chain, location hints on element/root, locations= at build time and when a wildcard loads the '
+             'namespace during validation, a hint for a namespace owned by the meta-schema, uri_mapper dict/callable) x 25 location spellings incl. double-percent-encoded dot segments, '
+             'mem: and urn: schemes the stub opener can resolve (+14 more: all in thorough, a seed-selected quarter in quick) x both processors. '
              'Every file/URL access of the real code is observed with sys.addaudithook and a stub opener and judged by a realpath/commonpath '
              'reference; influence of a denied file is observed through uniquely named elements.',
         design_ref='DESIGN.md section 2, C12',
@@ -44,7 +45,7 @@ CHECKS = {
         technique='exhaustive enumeration of the defuse-mode x channel x locality x role x payload product; differential against defuse=never; audit-hook observation',
         text='Model checking by complete enumeration of a finite product: 4 defuse modes x 12 input channels (text, bytes, seekable and '
              'non-seekable streams, path, file URL, http through a stub opener passed and installed globally) x 3 base_url localities x 5 roles '
-             '(resource, validate, main/included/imported schema) x 25 DTD payloads (entity kinds, external subsets, nesting, 64K/200K prologs, '
+             '(resource, validate, main/included/imported schema; next bound: the schema given as a source to the document-level API) x 25 DTD payloads (entity kinds, external subsets, nesting, 64K/200K prologs, '
              'BOM/UTF-16/ISO-8859-1), plus lazy resources and XSD 1.1 (all in thorough, a seed-selected quarter in quick). Oracle: defusing applies '
              'and the payload declares => forbidden-resource error, no access to any system id, no expansion marker; otherwise same tree as defuse=never.',
         design_ref='DESIGN.md section 2, C13',
@@ -92,7 +93,7 @@ CHECKS = {
              '<= 1 preemption at ANY xmlschema function call (layer A) and <= 2 preemptions (3 for the small harnesses in thorough) at the shared-state interface '
              '(caches, cached properties, build, staged maps, scratch context, identity widening, lock operations) is executed on a fresh schema; each thread result '
              'must equal the single-threaded result, a build race must build every global exactly once, deadlock and divergence are detected. Harnesses: build race, '
-             'xsi:type-in-key validations, scratch-context users, first use of caches/XPath, decode||encode, shared lazy resource.',
+             'xsi:type on identity-carrying elements (first two uses of a retyped element raced), scratch-context users, assertion facets (1.1), the selector cache at line granularity, first use of caches/XPath, decode||encode, shared lazy resource.',
         design_ref='DESIGN.md section 2, C18',
         note='Trusted: mc/explore/threadsched.py. Not modelled: preemption inside C code or between bytecodes of one function without a call; free-threaded builds. '
              'A recorded schedule is replayed twice and must give identical observations before it is reported.'),
